@@ -3,7 +3,9 @@ use crate::util::*;
 use darling::FromMeta;
 use serde_json::{json, Value};
 
-pub const FRAGMENTS: [&str; 60] = [
+pub const FRAGMENTS: [&str; 66] = [
+    // string literals (only ever written inside another string: two layers of quoting), a trailing comma, nothing at all
+    "\"hello\"", "\"[1, 2]\"", "\"0..5\"", "\"a::b\"", "T: Clone, U: Debug,", "",
     "self", "super", "crate", "type", "r#match",
     "hello::<u8>", "<T as Tr>::Assoc", "a::b::c::d::<[u8; 2]>::e",
     "foo", "a::b", "::a::b", "a::b::<u8>", "Vec::<u8>::new", "self::x", "crate::m::T", "r#type", "r#fn::x", "Self",
@@ -130,6 +132,7 @@ pub fn extras() -> (Vec<String>, u64) {
         for quoted in [false, true] {
             let written = if quoted { format!("{:?}", text) } else { text.to_string() };
             if nv_value(&written).is_none() { continue; }
+            if !quoted && text.starts_with('"') { continue; }       // the bare spelling of a string literal is the quoted spelling of its contents
             let m = meta_of(&format!("name = {}", written));
             let value = match &m { syn::Meta::NameValue(nv) => toks(&nv.value), _ => unreachable!() };
             n += 2;
